@@ -26,8 +26,8 @@
        c2mir.o.  So a direct libc call from library code lands here and is logged as Raw*; calls made
        inside libc (stdio buffers, getline ...) and by this harness (drivers, externals such as the
        `malloc` a MIR program imports) are never attributed to the library.  No return-address
-       heuristics are needed; "pc" (offset of the caller in the executable) is only used to name the
-       function in reports.
+       heuristics are needed; "bt" (offsets, in the executable, of the innermost return addresses) is
+       only used to name the calling function in finding keys and reports.
    The id space of raw blocks is the same as that of ledger blocks.  */
 #define _GNU_SOURCE
 #include <stdio.h>
